@@ -18,13 +18,12 @@ class C22(Prop):
           "interleaved after start_at and between events. Oracle: is_in(X) is true iff X is on the "
           "reference model's active path (X = current state, an ancestor, or top); child_state(P) "
           "returns the model's child of P on that path (the current state when P is current) and "
-          "raises when P does not enclose the current state; the twins' handler action logs and "
-          "resting states stay identical step by step. Non-trivial: >=1 query issued from a current "
+          "raises when P does not enclose the current state; the twins' handler action logs, "
+          "resting states and state_name/state_fn stay identical step by step and after every query. Non-trivial: >=1 query issued from a current "
           "state of depth >=3 whose argument does not enclose it; distinct = distinct case digests.")
   assumptions = [
     "the exception type of a failing child_state is not constrained (any Exception counts as 'fails')",
-    "chart.state_name between a query and the next step is not asserted (on decorated charts the "
-    "queries leave an ancestor's name there until the next step; recorded as an observation)",
+    "state_name/state_fn after a query are compared with the unqueried twin's (by name)",
   ]
 
   def strategy(self, tier):
@@ -99,6 +98,12 @@ class C22(Prop):
           classes.append("%s_%s" % (q[0], "enclosing" if encl else "other"))
           if depth >= 3 and not encl:
             nontrivial = True
+          if cq.state_name != cp.state_name or getattr(cq.state_fn, "__name__", None) != getattr(cp.state_fn, "__name__", None):
+            self.violation(stats,
+              "after %s in %s: %s(%s) left state_name = %r / state_fn = %r on the queried chart; the unqueried "
+              "twin says %r / %r" % (where, name_of(model.cur), q[0], name_of(q[1]), cq.state_name,
+                                     getattr(cq.state_fn, "__name__", None), cp.state_name,
+                                     getattr(cp.state_fn, "__name__", None)), "C22:query-changes-state-name")
           ok = got[0] == want[0] and (got[0] == "raised" or got[1] == want[1])
           if not ok:
             raise PropertyViolation(
